@@ -5,8 +5,8 @@ from .. import env, coq, runner, tables
 
 LEVEL = 'proof'
 META = dict(
-    text='Coq theorems (closed under the global context) over a hand-written Gallina model of measurement keys (path, name), key maps, scoped lookup of control keys, classical conditions and CircuitOperation with all its fields, written in the shape of the code (_mapped_any_loop: qubit map -> inverse for negative repetitions -> key map -> parameters; _mapped_single_loop: rescoping with the repetition id, then with parent path and extern keys; mapped_circuit with repetition ids vs plain repetition and deep recursion through Circuit.zip; the with_qubit_mapping / with_measurement_key_mapping / with_params / repeat(-1) / _with_rescoped_keys_ compositions pushed onto nested operations). Proved for every nesting depth, repetition count (positive or negative, non-zero), repetition ids, qubit/key/parameter maps and parent paths: the measurement keys and the qubits a nested operation reports equal those of its completely unrolled circuit; the unrolled circuit consists, moment by moment, of exactly the leaves a compositional semantics prescribes (which operation, inverted or not, on which qubits); key prefixing and key maps compose, control keys bind to the innermost enclosing bound measurement and never to a key bound later; remapping a condition changes only its key iff both replace_key implementations keep the other fields (two booleans read off the working tree on every run: false today, defect F2, with the refutation witness proved); constructor compositions; repeat_until = least number of passes (under fuel). The zero-repetition case is refuted by a proved witness (F7). On every run the model is evaluated with vm_compute on generated nestings (depth 0-3) and compared exactly with the implementation: mapped_circuit shallow/deep moment by moment, measurement/control key sets, parameter names, qubits, is_measurement, touched key names and the fields after one further remapping of each kind; spec-level oracles on the real code compare the wrapped operation with its unrolled circuit by unitary (incl. the single-qubit fast path), deterministic simulation records, exact outcome distribution (scripted seed object enumerating every measurement branch), repeat_until loop counts, scoping templates with independently known outcomes, decompose / unroll_circuit_op* and remapping-commutes-with-unrolling.',
-    note='Trusted: Coq kernel; vf/checks/c12.py (building Cirq objects from case records, decoding Cirq objects back, printing Gallina literals, the Python oracles); vf/tables_c12.py. Leaves other than CircuitOperation are abstract (identifier, inversion flag, qubits, keys, conditions, one parameter) and are instantiated by six gate families, measurements and classically controlled gates; key equality is componentwise (path, name), equal to Cirq\'s string equality when no path component contains ":"; sympy conditions are restricted to five expression templates and modelled by simultaneous substitution (the implementation deviates: F13); key-map / qubit-map collision checks of the with_* methods are not modelled (generated maps are injective); control keys and conditions of the unrolled circuit, parameter names and repeat_until are compared with the model but have no unrolling theorem; tagged or classically controlled CircuitOperations are covered by the simulation oracle only. Eleven recorded defects of the working tree are listed in known_findings/C12.json.',
+    text='Coq theorems (closed under the global context) over a hand-written Gallina model of measurement keys (path, name), key maps, scoped lookup of control keys, classical conditions and CircuitOperation with all its fields, written in the shape of the code (_mapped_any_loop: qubit map -> inverse for negative repetitions -> key map -> parameters; _mapped_single_loop: rescoping with the repetition id, then with parent path and extern keys; mapped_circuit with repetition ids vs plain repetition and deep recursion through Circuit.zip; the with_qubit_mapping / with_measurement_key_mapping / with_params / repeat(-1) / _with_rescoped_keys_ compositions pushed onto nested operations). Proved for every nesting depth, repetition count (positive or negative, non-zero), repetition ids, qubit/key/parameter maps and parent paths: the measurement keys and the qubits a nested operation reports equal those of its completely unrolled circuit; the unrolled circuit consists, moment by moment, of exactly the leaves a compositional semantics prescribes (which operation, inverted or not, on which qubits); key prefixing and key maps compose, control keys bind to the innermost enclosing bound measurement and never to a key bound later; remapping a condition changes only its key iff both replace_key implementations keep the other fields (two booleans read off the working tree on every run: both true since the F2 fix, so the faithful-remapping theorem is live on the tree and stops compiling if replace_key drops fields again); constructor compositions; repeat_until = least number of passes (under fuel). The zero-repetition case is refuted by a proved witness (F7). On every run the model is evaluated with vm_compute on generated nestings (depth 0-3) and compared exactly with the implementation: mapped_circuit shallow/deep moment by moment, measurement/control key sets, parameter names, qubits, is_measurement, touched key names and the fields after one further remapping of each kind; spec-level oracles on the real code compare the wrapped operation with its unrolled circuit by unitary (incl. the single-qubit fast path), deterministic simulation records, exact outcome distribution (scripted seed object enumerating every measurement branch), repeat_until loop counts, scoping templates with independently known outcomes, decompose / unroll_circuit_op* and remapping-commutes-with-unrolling.',
+    note='Trusted: Coq kernel; vf/checks/c12.py (building Cirq objects from case records, decoding Cirq objects back, printing Gallina literals, the Python oracles); vf/tables_c12.py. Leaves other than CircuitOperation are abstract (identifier, inversion flag, qubits, keys, conditions, one parameter) and are instantiated by six gate families, measurements and classically controlled gates; key equality is componentwise (path, name), equal to Cirq\'s string equality when no path component contains ":"; sympy conditions are restricted to five expression templates and modelled by simultaneous substitution (as the implementation does since the F13 fix); key-map / qubit-map collision checks of the with_* methods are not modelled (generated maps are injective); control keys and conditions of the unrolled circuit, parameter names and repeat_until are compared with the model but have no unrolling theorem; tagged or classically controlled CircuitOperations are covered by the simulation oracle only. known_findings/C12.json lists seven open signatures (F7, F14, F15, F16 x3, F18) and four fixed ones (F2 x2, F4, F13).',
     technique='Rocq/Coq proof over an executable Gallina model + vm_compute correspondence against the implementation + differential simulation oracles (exact branch enumeration)',
 )
 
